@@ -5,7 +5,7 @@ import someip.config as C
 import someip.header as H
 import someip.sd as SD
 from contracts import looplib as LL
-from contracts.common import check_frame
+from contracts.common import check_frame, gen_addr
 from contracts import spec_config as SCFG
 from contracts import spec_sd as SS
 
@@ -509,8 +509,10 @@ class QWorld:
         if vc.bool(name + ".to_multicast"):
             self.R = None
         else:
-            self.R = vc.opaque(name + ".R", "addr")
-        self.R2 = vc.opaque(name + ".R2", "addr")
+            self.R = gen_addr(vc, name + ".R")
+        # another peer: any other socket address -- possibly the same host with another
+        # port, or the same host and port with another scope id
+        self.R2 = gen_addr(vc, name + ".R2")
         if self.R is not None:
             vc.assume(self.R != self.R2)
         self.prior = SCFG.gen_entry(vc, name + ".prior_entry", sd_type=vc.choice(name + ".prior_type", (H.SOMEIPSDEntryType.OfferService, H.SOMEIPSDEntryType.SubscribeAck)), resolved=True)
@@ -579,6 +581,9 @@ def ob_queue_send(vc):
         vc.check_eq(len(w.loop.timers), n_timers, "queue_send.joining_arms_no_timer")
     else:
         vc.cover("created")
+        vc.check(c is not w.col and c is not w.col2, "queue_send.new_collector_is_a_new_one")
+        if c is w.col or c is w.col2:
+            return
         vc.check_eq(list(c.data), [entry], "queue_send.new_collector_holds_the_entry")
         vc.check_eq(len(w.loop.timers), n_timers + 1, "queue_send.new_collector_arms_one_timer")
         vc.check(len(c.kwargs) == 1 and c.kwargs.get("remote") == w.R and c.args == () and c.callback == w.prot.send_sd, "queue_send.collector_sends_to_its_destination")
@@ -624,7 +629,8 @@ def ob_queue_then_timeout(vc):
         entry = SCFG.gen_entry(vc, "entry", sd_type=vc.choice("entry_type", (H.SOMEIPSDEntryType.OfferService, H.SOMEIPSDEntryType.SubscribeAck)), resolved=True)
     w.ann.queue_send(entry, w.R)
     c = w.ann.send_queues.get(w.R)
-    w.loop.fire(c._handle)
+    if c is not None:
+        w.loop.fire(c._handle)
     for h in w.loop.live_timers():
         w.loop.fire(h)  # whatever else is still armed fires as well: nothing is sent twice
     n = len([1 for s in w.sends if len(vc.list_tail(s[0])) > 0 and vc.list_tail(s[0])[len(vc.list_tail(s[0])) - 1] is entry])
